@@ -370,4 +370,65 @@ def rule_f(ctx: Ctx) -> None:
     ctx.explain('C07.f: dominance - the test that gives an untyped member the type of its head dominates the return taken when the head blocks substitution.')
 
 
-RULES = [rule_a, rule_b, rule_c, rule_d, rule_e, rule_f]
+CLIMBS = ('self.base_type.is_derived', 'self.base_type.content.is_derived')
+
+
+def rule_g(ctx: Ctx) -> None:
+    """"Validly derived" is transitive: a type whose base type is validly derived from T is validly derived from T, however many steps lie between
+    (xsi:type="DiscountedPrice" on an element declared Amount, with Price in between).  In the implementations of is_derived that climb the chain, every
+    exit taken when the type *has* a base other than T itself either refuses for a stated structural reason or accepts whenever the recursive question to
+    the base type is answered yes."""
+    from .common import bool_atoms, bool_eval
+    rule = 'C07.g'
+    n = nimpl = 0
+    for c in ctx.idx.classes.values():
+        if not c.module.name.startswith('xmlschema.validators'):
+            continue
+        f = c.methods.get('is_derived')
+        if f is None or isinstance(f.node, ast.Lambda):
+            continue
+        if not any(isinstance(x.func, ast.Attribute) and text(x.func) in CLIMBS for x in calls(f.node)):
+            continue        # a terminal implementation (list, union: no base chain of their own)
+        nimpl += 1
+        ctx.analysed(f.qualname)
+        g = cfg_of(ctx, f)
+        for r in g.nodes:
+            if not (r.kind == 'return' and r.ast.value is not None):
+                continue
+            gs = guards(ctx, f, r)
+            if ('self.base_type is None', 'F') not in gs or ('self.base_type is other', 'F') not in gs:
+                continue        # no base to ask, or the base is the target itself
+            if any(lab == 'T' and t.startswith('isinstance(other, XsdUnion)') for t, lab in gs):
+                continue        # the target is a union: the question is put to its members
+            v = r.ast.value
+            n += 1
+            if isinstance(v, ast.Constant) and v.value is False:
+                why = [t for t, lab in gs if lab == 'T' and ('has_simple_content' in t or 'is_complex' in t)]
+                ok = bool(why)
+                ctx.ob(rule, f'{c.name}.is_derived: a type with a base refuses only for a structural reason', f.loc(r.ast), ok,
+                       why[0][:60] if ok else 'refusal without asking the base type', key=f'{c.name}.is_derived|refusal|{(why or [""])[0][:40]}', nontrivial=False)
+                continue
+            atoms = bool_atoms(v)
+            climb = [a for a in atoms if a.startswith(CLIMBS)]
+            ok = False
+            if climb:
+                env = {a: False for a in atoms}
+                env[climb[0]] = True
+                for a in atoms:
+                    if a.replace(' ', '') == 'self.base_typeisnotself':
+                        env[a] = True
+                try:
+                    ok = bool_eval(v, env) is True
+                except KeyError:
+                    ok = False
+            ctx.ob(rule, f'{c.name}.is_derived: `return {text(v)[:50]}` accepts whenever the base type is derived from the target', f.loc(r.ast), ok,
+                   '' if ok else ('the exit does not ask the base type at all' if not climb else 'the answer of the base type is and-ed with another condition') +
+                   ': a derivation of two or more steps (C extends B extends A, simple content) is no longer recognised - xsi:type="C" on an element declared A is refused '
+                   '"cannot substitute", and a substitution-group member of type C is refused at schema build', key=f'{c.name}.is_derived|climb|{(sorted(t for t, l in gs if l == "T") or [""])[-1][:40]}')
+    ctx.floor(rule, 'chain-climbing is_derived implementations', nimpl, 2)
+    ctx.floor(rule, 'exits of is_derived for a type with a base', n, 4)
+    ctx.explain('C07.g: in XsdComplexType.is_derived / XsdSimpleType.is_derived every return reached with `self.base_type is None` false and `self.base_type is other` false '
+                '(target not a union) evaluates to True when the atom `self.base_type[.content].is_derived(…)` is True and every other atom False (truth table of the return expression).')
+
+
+RULES = [rule_a, rule_b, rule_c, rule_d, rule_e, rule_f, rule_g]
